@@ -14,6 +14,7 @@ from .core import Ctx, Unmodelled, Abort, Reject, explore, set_ctx
 OB_RLIMIT = 15_000_000            # deterministic z3 resource limit per obligation (>= 100x the largest need seen)
 
 HARNESSES = {}
+FAST = [False]         # canary runs: short solver budget (a mutant left undecided goes to the bounded fallback)
 
 
 class Harness:
@@ -74,7 +75,7 @@ def discharge(ob):
     s.set('rlimit', OB_RLIMIT)
     # wall-clock safety net only; the deterministic limit is rlimit.  A `False` goal asks for a model of the whole path
     # condition (feasibility of an unexpected exception): kept short, the native fallback decides it otherwise
-    s.set('timeout', 8000 if z3.is_false(ob.goal) else 120000)
+    s.set('timeout', 6000 if (z3.is_false(ob.goal) or FAST[0]) else 40000)
     for p in ob.pc:
         s.add(p)
     s.add(z3.Not(ob.goal))
@@ -104,6 +105,8 @@ def discharge(ob):
 
 def _try_cvc5(ob, s):
     """second back end for queries z3 leaves unknown (quantifier-free, no lambdas)"""
+    if FAST[0]:
+        return
     try:
         import subprocess
         txt = s.to_smt2()
